@@ -15,13 +15,40 @@ def run(ctx):
         r = ctx.mc("MC_C17", "MC_C17_thorough.cfg" if ctx.thorough else "MC_C17_quick.cfg", "variation space of Create", workers=4)
         cfgs = r.tagged("CONFIG")
         # group by key so that the first event of each key is the plain configuration
-        cfgs.sort(key=lambda c: (c["format"], c["set"], c["perm"] != "given", c["rep"], c["via"], c["spell"], c["cwd"], c["g"], c["kernel"]))
-        cp = ctx.work.path("cfgs.ndjson")
-        with open(cp, "w") as f:
-            for c in cfgs:
-                f.write(json.dumps(c) + "\n")
-        t = ctx.drive(["c17", "-par", ctx.par, "-in", cp], out_name="c17.ndjson")
-        ev = vlib.read_ndjson(t)
+        cfgs.sort(key=lambda c: (c["format"], c["set"], c["perm"] != "given", c["rep"], c.get("prior", "fresh"), c["via"], c["spell"], c["cwd"], c["g"], c["kernel"]))
+        # the driver changes the process's working directory, so parallelism is by process: K shards, merged back
+        # into the canonical order
+        import threading
+        K = 6
+        par = ctx.par
+        vh = ctx.vh
+        outs, errs = [None] * K, []
+
+        def shard(k):
+            try:
+                cp = ctx.work.path("cfgs-%d.ndjson" % k)
+                with open(cp, "w") as f:
+                    for c in cfgs[k::K]:
+                        f.write(json.dumps(c) + "\n")
+                out = ctx.work.path("c17-%d.ndjson" % k)
+                so, se, wall = vlib.run_vh(vh, ["c17", "-par", par, "-in", cp, "-out", out, "-tier", ctx.tier, "-seed", str(ctx.seed),
+                                                "-dir", ctx.work.sub("sandbox-%d" % k)], timeout=3000)
+                outs[k] = vlib.read_ndjson(out)
+            except Exception as e:      # noqa
+                errs.append(e)
+        ths = [threading.Thread(target=shard, args=(k,)) for k in range(K)]
+        for th in ths: th.start()
+        for th in ths: th.join()
+        if errs:
+            raise errs[0] if isinstance(errs[0], vlib.Inconclusive) else vlib.Inconclusive(str(errs[0]))
+        ev = []
+        for i in range(len(cfgs)):
+            sh = outs[i % K]
+            if i // K >= len(sh):
+                raise vlib.Inconclusive("driver shard %d recorded %d of %d configurations" % (i % K, len(sh), len(cfgs[i % K::K])))
+            ev.append(sh[i // K])
+        t = ctx.work.path("c17.ndjson")
+        vlib.write_ndjson(t, ev)
         vd = ctx.judge("Trace_C17", t)
         ctx.extra["configurations"] = len(cfgs)
         ctx.extra["keys"] = len(set(e["key"] for e in ev))
